@@ -220,7 +220,8 @@ def run(ctx):
         ev = load_events(btrace, {(v["trace"], v["index"]) for v in bv})
         for v in bv:
             e = ev.get((v["trace"], v["index"]), {})
-            v["features"] = {k: e.get(k) for k in ("name", "kind", "ver", "fill", "shape", "hasmap", "eerr", "derr", "rerr", "d2err",
+            v["features"] = {k: e.get(k) for k in ("name", "kind", "ver", "fill", "shape", "reshape", "hasmap", "eerr", "derr", "rerr", "d2err",
+                                                   "eerrk", "derrk", "rerrk", "d2errk",
                                                    "decver", "decdiff", "rediff", "buflen", "relen", "dend", "preplen", "reallen")}
             v["features"]["part"] = "body"
             viols.append(v)
